@@ -165,16 +165,81 @@ the deadline it contributed to the cut (the lease is already within the ceiling
 when `SetUntil` sees it, so the cache never lowers it) -/
 def ElemOK (_M : Int) (p : PathElem) : Prop := p.deadline ≤ p.stored
 
+/-- the meta's cut is bounded and not later than `b` -/
+abbrev Bounds (m : Meta) (b : Int) : Prop := ∃ x, m.cut = some x ∧ x ≤ b
+
+/-- folding only ever lowers: whatever `m` bounded, `m'` bounds -/
+abbrev Keeps (m m' : Meta) : Prop := ∀ b, Bounds m b → Bounds m' b
+
+/-- one resolution in progress, judged against the `ResponseMeta` it reports into -/
+def FrameOK (M now : Int) (cur : Meta) (r : RS) : Prop :=
+  (∀ p ∈ r.path, (∃ c, r.cut = some c ∧ c ≤ p.deadline) ∧ ElemOK M p ∧ p.obs ≤ now) ∧
+  (∀ p ∈ r.path ++ r.used, Bounds cur p.deadline)
+
+/-- the stack of resolutions: frames above (and including) a forked chase report
+into the current meta, the frames below it into the meta frozen in that chase frame -/
+def StackOK (M now : Int) : Meta → List RS → Prop
+  | _, [] => True
+  | cur, r :: rest => FrameOK M now cur r ∧ StackOK M now (r.outer.getD cur) rest
+
 structure Inv (M : Int) (s : Sys) : Prop where
   delegs : ∀ e ∈ s.delegs, e.observedAt ≤ s.now ∧ e.expiresAt ≤ e.observedAt + e.grant ∧
     e.expiresAt ≤ e.observedAt + M ∧
     ∀ p ∈ e.path, e.expiresAt ≤ p.deadline ∧ ElemOK M p ∧ p.obs ≤ e.observedAt
-  stack : ∀ r ∈ s.stack, ∀ p ∈ r.path, (∃ c, r.cut = some c ∧ c ≤ p.deadline) ∧ ElemOK M p ∧
-    p.obs ≤ s.now ∧ ∃ m, s.cut.cut = some m ∧ m ≤ p.deadline
+  stack : StackOK M s.now s.cut s.stack
   answers : ∀ a ∈ s.answers, ∀ p ∈ a.path, ∃ c, a.cutUntil = some c ∧ c ≤ p.deadline
 
 theorem inv_init (M : Int) : Inv M {} :=
-  ⟨(by intro e h; simp at h), (by intro r h; simp at h), (by intro a h; simp at h)⟩
+  ⟨(by intro e h; simp at h), trivial, (by intro a h; simp at h)⟩
+
+theorem frameOK_keeps (M now : Int) (cur cur' : Meta) (r : RS) (h : FrameOK M now cur r)
+    (hk : Keeps cur cur') : FrameOK M now cur' r :=
+  ⟨h.1, fun p hp => hk _ (h.2 p hp)⟩
+
+theorem stackOK_keeps (M now : Int) (st : List RS) : ∀ (cur cur' : Meta), StackOK M now cur st →
+    Keeps cur cur' → StackOK M now cur' st := by
+  induction st with
+  | nil => intros; trivial
+  | cons r rest ih =>
+    intro cur cur' h hk
+    refine ⟨frameOK_keeps M now cur cur' r h.1 hk, ?_⟩
+    cases ho : r.outer with
+    | none => have := h.2; rw [ho] at this; exact ih _ _ this hk
+    | some m => have := h.2; rw [ho] at this; exact this
+
+theorem stackOK_tail_keeps (M now : Int) (o : Option Meta) (cur cur' : Meta) (rest : List RS)
+    (h : StackOK M now (o.getD cur) rest) (hk : Keeps cur cur') : StackOK M now (o.getD cur') rest := by
+  cases o with
+  | none => exact stackOK_keeps M now rest _ _ h hk
+  | some m => exact h
+
+theorem stackOK_now (M now now' : Int) (hn : now ≤ now') (st : List RS) : ∀ cur, StackOK M now cur st →
+    StackOK M now' cur st := by
+  induction st with
+  | nil => intros; trivial
+  | cons r rest ih =>
+    intro cur h
+    refine ⟨⟨?_, h.1.2⟩, ih _ h.2⟩
+    intro p hp
+    obtain ⟨h1, h2, h3⟩ := h.1.1 p hp
+    exact ⟨h1, h2, by omega⟩
+
+/-- a frame from per-element facts -/
+theorem frameOK_of (M now : Int) (cur : Meta) (r : RS)
+    (h4 : ∀ p ∈ r.path, (∃ c, r.cut = some c ∧ c ≤ p.deadline) ∧ ElemOK M p ∧ p.obs ≤ now ∧ Bounds cur p.deadline)
+    (hu : ∀ p ∈ r.used, Bounds cur p.deadline) : FrameOK M now cur r := by
+  refine ⟨fun p hp => ⟨(h4 p hp).1, (h4 p hp).2.1, (h4 p hp).2.2.1⟩, ?_⟩
+  intro p hp
+  rcases List.mem_append.mp hp with hp | hp
+  · exact (h4 p hp).2.2.2
+  · exact hu p hp
+
+theorem frame_elem (M now : Int) (cur : Meta) (r : RS) (h : FrameOK M now cur r) (p : PathElem) (hp : p ∈ r.path) :
+    (∃ c, r.cut = some c ∧ c ≤ p.deadline) ∧ ElemOK M p ∧ p.obs ≤ now ∧ Bounds cur p.deadline :=
+  ⟨(h.1 p hp).1, (h.1 p hp).2.1, (h.1 p hp).2.2, h.2 p (List.mem_append_left _ hp)⟩
+
+theorem frame_used (M now : Int) (cur : Meta) (r : RS) (h : FrameOK M now cur r) (p : PathElem) (hp : p ∈ r.used) :
+    Bounds cur p.deadline := h.2 p (List.mem_append_right _ hp)
 
 theorem findEntry_mem (ds : List Entry) (z : Name) (e : Entry) (h : findEntry ds z = some e) :
     e ∈ ds ∧ e.zone = z := by
@@ -252,6 +317,14 @@ theorem seed_spec (M : Int) (s : Sys) (hinv : Inv M s) (m : Meta) (q : Name) :
     · obtain ⟨h1, h2, h3⟩ := hpath p hp
       exact ⟨⟨e.expiresAt, rfl, h1⟩, h2, by omega, ⟨c, hc, by omega⟩⟩
 
+theorem seed_used (s : Sys) (m : Meta) (q : Name) : (seed s m q).1.used = [] ∧ (seed s m q).1.outer = none := by
+  unfold seed
+  cases searchFrom s.delegs s.now q q.length <;> exact ⟨rfl, rfl⟩
+
+theorem seed_frame (M : Int) (s : Sys) (hinv : Inv M s) (m : Meta) (q : Name) :
+    FrameOK M s.now (seed s m q).2 (seed s m q).1 :=
+  frameOK_of M s.now _ _ (seed_spec M s hinv m q) (by rw [(seed_used s m q).1]; intro p hp; cases hp)
+
 theorem seed_keeps (s : Sys) (m : Meta) (q : Name) (b : Int)
     (h : ∃ y, m.cut = some y ∧ y ≤ b) : ∃ c, (seed s m q).2.cut = some c ∧ c ≤ b := by
   unfold seed
@@ -266,27 +339,65 @@ theorem inv_step (M : Int) (s : Sys) (ev : Ev) (hinv : Inv M s) : Inv M (step M 
     · intro e he
       obtain ⟨h1, h2, h3, h4⟩ := hinv.delegs e he
       exact ⟨by simp only [step]; omega, h2, h3, h4⟩
-    · intro r hr p hp
-      obtain ⟨h1, h2, h3, h4⟩ := hinv.stack r hr p hp
-      exact ⟨h1, h2, by simp only [step]; omega, h4⟩
+    · exact stackOK_now M s.now (s.now + d) (by omega) _ _ hinv.stack
   | start q =>
     refine ⟨hinv.delegs, ?_, hinv.answers⟩
-    intro r hr p hp
-    simp only [step, List.mem_singleton] at hr
-    subst hr
-    exact seed_spec M s hinv {} q p hp
+    exact ⟨seed_frame M s hinv {} q, trivial⟩
   | substart q =>
     refine ⟨hinv.delegs, ?_, hinv.answers⟩
-    intro r hr p hp
-    simp only [step] at hr
-    rcases List.mem_cons.mp hr with rfl | hr
-    · exact seed_spec M s hinv s.cut q p hp
-    · obtain ⟨h1, h2, h3, h4⟩ := hinv.stack r hr p hp
-      exact ⟨h1, h2, h3, seed_keeps s s.cut q _ h4⟩
-  | finish =>
+    refine ⟨seed_frame M s hinv s.cut q, ?_⟩
+    rw [(seed_used s s.cut q).2]
+    exact stackOK_keeps M s.now _ _ _ hinv.stack (fun b h => seed_keeps s s.cut q b h)
+  | chase q =>
     refine ⟨hinv.delegs, ?_, hinv.answers⟩
-    intro r hr p hp
-    exact hinv.stack r (List.mem_of_mem_tail hr) p hp
+    refine ⟨?_, hinv.stack⟩
+    have hf := seed_frame M s hinv {} q
+    exact ⟨hf.1, hf.2⟩
+  | finish used =>
+    simp only [step]
+    cases hst : s.stack with
+    | nil => exact hinv
+    | cons r rest =>
+      have hs := hinv.stack
+      rw [hst] at hs
+      obtain ⟨hfr, hrest⟩ := hs
+      simp only
+      cases ho : r.outer with
+      | none =>
+        simp only
+        rw [ho] at hrest
+        exact ⟨hinv.delegs, hrest, hinv.answers⟩
+      | some m =>
+        simp only
+        rw [ho] at hrest
+        cases used with
+        | false => exact ⟨hinv.delegs, hrest, hinv.answers⟩
+        | true =>
+          simp only [if_true]
+          refine ⟨hinv.delegs, ?_, hinv.answers⟩
+          -- the deriving request's meta after inherit(): keeps its own bounds, and is below the fork's cut
+          have hk : Keeps m (m.boundCutFor s.cut.cut s.cut.key) := fun b h => boundCutFor_keeps m _ _ b h
+          cases rest with
+          | nil => trivial
+          | cons o t =>
+            obtain ⟨hfo, ht⟩ := hrest
+            refine ⟨?_, stackOK_tail_keeps M s.now o.outer _ _ t ht hk⟩
+            refine ⟨hfo.1, ?_⟩
+            intro p hp
+            simp only at hp
+            have hp' : p ∈ o.path ++ o.used ∨ p ∈ r.path ++ r.used := by
+              simp only [List.mem_append] at hp ⊢
+              rcases hp with h | (h | h) | h
+              · exact Or.inl (Or.inl h)
+              · exact Or.inr (Or.inl h)
+              · exact Or.inr (Or.inr h)
+              · exact Or.inl (Or.inr h)
+            rcases hp' with h | h
+            · exact hk _ (hfo.2 p h)
+            · obtain ⟨x, hx, hxp⟩ := hfr.2 p h
+              rw [hx]
+              obtain ⟨c, hc, hcx, _, _⟩ := boundCutFor_some m x s.cut.key
+              exact ⟨c, hc, by omega⟩
   | purge z =>
     refine ⟨?_, hinv.stack, hinv.answers⟩
     intro e he
@@ -296,11 +407,12 @@ theorem inv_step (M : Int) (s : Sys) (ev : Ev) (hinv : Inv M s) : Inv M (step M 
     cases hst : s.stack with
     | nil => exact hinv
     | cons r rest =>
+      have hs := hinv.stack
+      rw [hst] at hs
       refine ⟨hinv.delegs, by simpa [hst] using hinv.stack, ?_⟩
       intro a ha p hp
       rcases List.mem_cons.mp ha with rfl | ha
-      · obtain ⟨_, _, _, h4⟩ := hinv.stack r (by rw [hst]; exact List.mem_cons_self) p hp
-        exact h4
+      · exact hs.1.2 p hp
       · exact hinv.answers a ha p hp
   | referral z nsTTLs dsTTLs =>
     simp only [step]
@@ -308,23 +420,23 @@ theorem inv_step (M : Int) (s : Sys) (ev : Ev) (hinv : Inv M s) : Inv M (step M 
     | nil => exact hinv
     | cons r rest =>
       simp only
+      have hs := hinv.stack
+      rw [hst] at hs
+      obtain ⟨hfr, hrest⟩ := hs
       by_cases hprog : progressing r.zone z r.qname = true
       · simp only [hprog, Bool.not_true, Bool.false_eq_true, if_false]
-        have hr : r ∈ s.stack := by rw [hst]; exact List.mem_cons_self
-        have hrest : ∀ r' ∈ rest, r' ∈ s.stack := by intro r' h; rw [hst]; exact List.mem_cons_of_mem _ h
         obtain ⟨cd, hcd, hcdl, hcdc, _⟩ :=
           minCut_some_right r.cut 0 0 (leaseDeadline M s.now (minRRSetTTL nsTTLs) dsTTLs)
         rw [hcd]
         simp only
         -- the cut folded into the request tree's meta
         obtain ⟨m1, hm1, hm1cd, hm1old, _⟩ := boundCutFor_some s.cut cd 0
-        have keep1 : ∀ b, (∃ y, s.cut.cut = some y ∧ y ≤ b) →
-            ∃ c, (s.cut.boundCutFor (some cd) 0).cut = some c ∧ c ≤ b :=
+        have keep1 : Keeps s.cut (s.cut.boundCutFor (some cd) 0) :=
           fun b h => boundCutFor_keeps s.cut _ 0 b h
         -- every path element of r is above cd
         have hpathcd : ∀ p ∈ r.path, cd ≤ p.deadline := by
           intro p hp
-          obtain ⟨⟨c, hc, hcp⟩, _, _, _⟩ := hinv.stack r hr p hp
+          obtain ⟨⟨c, hc, hcp⟩, _, _, _⟩ := frame_elem M s.now s.cut r hfr p hp
           have := hcdc c hc; omega
         cases hlive : liveEntry s.delegs s.now z with
         | some e =>
@@ -336,64 +448,61 @@ theorem inv_step (M : Int) (s : Sys) (ev : Ev) (hinv : Inv M s) : Inv M (step M 
           have hc2cd' : c2 ≤ cd := hc2cd cd rfl
           obtain ⟨m2, hm2, hm2c2, hm2old, _⟩ := boundCutFor_some (s.cut.boundCutFor (some cd) 0) c2 0
           have hm2m1 : m2 ≤ m1 := hm2old m1 hm1
-          refine ⟨hinv.delegs, ?_, hinv.answers⟩
-          intro r' hr' p hp
-          rcases List.mem_cons.mp hr' with rfl | hr'
-          · simp only at hp ⊢
-            rw [hc2]
-            rcases List.mem_cons.mp hp with rfl | hp
-            · exact ⟨⟨c2, rfl, hc2e⟩, (show ElemOK M _ from Int.le_refl _), heobs, ⟨m2, hm2, by simp only [elemOf]; omega⟩⟩
-            · rcases List.mem_append.mp hp with hp | hp
-              · obtain ⟨h1, h2, h3⟩ := hepath p hp
-                exact ⟨⟨c2, rfl, by omega⟩, h2, by omega, ⟨m2, hm2, by omega⟩⟩
-              · rcases List.mem_cons.mp hp with rfl | hp
-                · exact ⟨⟨c2, rfl, hc2cd'⟩, (show ElemOK M _ from Int.le_refl _), Int.le_refl _, ⟨m2, hm2, by simp only; omega⟩⟩
-                · obtain ⟨_, h2, h3, _⟩ := hinv.stack r hr p hp
-                  have := hpathcd p hp
-                  exact ⟨⟨c2, rfl, by omega⟩, h2, h3, ⟨m2, hm2, by omega⟩⟩
-          · obtain ⟨h1, h2, h3, h4⟩ := hinv.stack r' (hrest r' hr') p hp
-            exact ⟨h1, h2, h3, boundCutFor_keeps _ _ 0 _ (keep1 _ h4)⟩
+          have keep2 : Keeps s.cut ((s.cut.boundCutFor (some cd) 0).boundCutFor
+              (minCut (some cd) 0 (some e.expiresAt) 0).1 0) :=
+            fun b h => boundCutFor_keeps _ _ 0 b (keep1 b h)
+          refine ⟨hinv.delegs, ⟨?_, stackOK_tail_keeps M s.now r.outer _ _ rest hrest keep2⟩, hinv.answers⟩
+          refine frameOK_of M s.now _ _ ?_ (fun p hp => keep2 _ (frame_used M s.now s.cut r hfr p hp))
+          intro p hp
+          simp only at hp ⊢
+          rw [hc2]
+          rcases List.mem_cons.mp hp with rfl | hp
+          · exact ⟨⟨c2, rfl, hc2e⟩, (show ElemOK M _ from Int.le_refl _), heobs, ⟨m2, hm2, by simp only [elemOf]; omega⟩⟩
+          · rcases List.mem_append.mp hp with hp | hp
+            · obtain ⟨h1, h2, h3⟩ := hepath p hp
+              exact ⟨⟨c2, rfl, by omega⟩, h2, by omega, ⟨m2, hm2, by omega⟩⟩
+            · rcases List.mem_cons.mp hp with rfl | hp
+              · exact ⟨⟨c2, rfl, hc2cd'⟩, (show ElemOK M _ from Int.le_refl _), Int.le_refl _, ⟨m2, hm2, by simp only; omega⟩⟩
+              · obtain ⟨_, h2, h3, _⟩ := frame_elem M s.now s.cut r hfr p hp
+                have := hpathcd p hp
+                exact ⟨⟨c2, rfl, by omega⟩, h2, h3, ⟨m2, hm2, by omega⟩⟩
         | none =>
           simp only
           cases hcl : clampUntil M s.now (some cd) with
           | some v =>
             simp only
             obtain ⟨hnow, hvcd, hvM, hvor⟩ := clampUntil_some M s.now cd v hcl
-            refine ⟨?_, ?_, hinv.answers⟩
+            refine ⟨?_, ⟨?_, stackOK_tail_keeps M s.now r.outer _ _ rest hrest keep1⟩, hinv.answers⟩
             · intro e he
               rcases List.mem_cons.mp he with rfl | he
               · refine ⟨Int.le_refl _, by simp only; omega, hvM, ?_⟩
                 intro p hp
-                obtain ⟨_, h2, h3, _⟩ := hinv.stack r hr p hp
+                obtain ⟨_, h2, h3, _⟩ := frame_elem M s.now s.cut r hfr p hp
                 have := hpathcd p hp
                 exact ⟨by simp only; omega, h2, h3⟩
               · exact hinv.delegs e he
-            · intro r' hr' p hp
-              rcases List.mem_cons.mp hr' with rfl | hr'
-              · simp only at hp ⊢
-                rcases List.mem_cons.mp hp with rfl | hp
-                · refine ⟨⟨cd, rfl, Int.le_refl _⟩, ?_, Int.le_refl _, ⟨m1, hm1, hm1cd⟩⟩
-                  have hlm := (leaseDeadline_spec M s.now (minRRSetTTL nsTTLs) dsTTLs).2.1
-                  show cd ≤ v
-                  rcases hvor with h | h <;> omega
-                · obtain ⟨_, h2, h3, _⟩ := hinv.stack r hr p hp
-                  have := hpathcd p hp
-                  exact ⟨⟨cd, rfl, this⟩, h2, h3, ⟨m1, hm1, by omega⟩⟩
-              · obtain ⟨h1, h2, h3, h4⟩ := hinv.stack r' (hrest r' hr') p hp
-                exact ⟨h1, h2, h3, keep1 _ h4⟩
-          | none =>
-            simp only
-            refine ⟨hinv.delegs, ?_, hinv.answers⟩
-            intro r' hr' p hp
-            rcases List.mem_cons.mp hr' with rfl | hr'
-            · simp only at hp ⊢
+            · refine frameOK_of M s.now _ _ ?_ (fun p hp => keep1 _ (frame_used M s.now s.cut r hfr p hp))
+              intro p hp
+              simp only at hp ⊢
               rcases List.mem_cons.mp hp with rfl | hp
-              · exact ⟨⟨cd, rfl, Int.le_refl _⟩, (show ElemOK M _ from Int.le_refl _), Int.le_refl _, ⟨m1, hm1, hm1cd⟩⟩
-              · obtain ⟨_, h2, h3, _⟩ := hinv.stack r hr p hp
+              · refine ⟨⟨cd, rfl, Int.le_refl _⟩, ?_, Int.le_refl _, ⟨m1, hm1, hm1cd⟩⟩
+                have hlm := (leaseDeadline_spec M s.now (minRRSetTTL nsTTLs) dsTTLs).2.1
+                show cd ≤ v
+                rcases hvor with h | h <;> omega
+              · obtain ⟨_, h2, h3, _⟩ := frame_elem M s.now s.cut r hfr p hp
                 have := hpathcd p hp
                 exact ⟨⟨cd, rfl, this⟩, h2, h3, ⟨m1, hm1, by omega⟩⟩
-            · obtain ⟨h1, h2, h3, h4⟩ := hinv.stack r' (hrest r' hr') p hp
-              exact ⟨h1, h2, h3, keep1 _ h4⟩
+          | none =>
+            simp only
+            refine ⟨hinv.delegs, ⟨?_, stackOK_tail_keeps M s.now r.outer _ _ rest hrest keep1⟩, hinv.answers⟩
+            refine frameOK_of M s.now _ _ ?_ (fun p hp => keep1 _ (frame_used M s.now s.cut r hfr p hp))
+            intro p hp
+            simp only at hp ⊢
+            rcases List.mem_cons.mp hp with rfl | hp
+            · exact ⟨⟨cd, rfl, Int.le_refl _⟩, (show ElemOK M _ from Int.le_refl _), Int.le_refl _, ⟨m1, hm1, hm1cd⟩⟩
+            · obtain ⟨_, h2, h3, _⟩ := frame_elem M s.now s.cut r hfr p hp
+              have := hpathcd p hp
+              exact ⟨⟨cd, rfl, this⟩, h2, h3, ⟨m1, hm1, by omega⟩⟩
       · have : progressing r.zone z r.qname = false := by simpa using hprog
         simp only [this, Bool.not_false, if_true]
         exact hinv
